@@ -51,15 +51,13 @@ def run(prop, tier, seed, replay=None):
     if replay is None:
         bad = copy.deepcopy(traces[0][0])
         bad["out"]["us"] = (bad["out"]["us"] + 1000) % 1000000
+        traces.append([copy.deepcopy(traces[0][0])])      # control
         traces.append([bad])
         ncan = 1
     acc, rej, stats = tlc.judge("AwEventTrace", JUDGE, traces, tag="judge_c13", chunk=80, heap="10g")
     rep.add_judge_stats(stats)
     nreal = len(parts)
-    for ci in range(nreal, nreal + ncan):
-        if ci in acc:
-            raise tlc.TLCFailure("canary (instant off by one millisecond) accepted by the judge")
-    rep.notes["canaries_rejected"] = ncan
+    rep.notes["canaries_rejected"] = tlc.check_canary_pairs(acc, nreal, ncan, "instant off by one millisecond")
     reps = {}
     for c in cases:
         reps[c[0]] = reps.get(c[0], 0) + 1
